@@ -27,7 +27,7 @@ pub fn check(tier: Tier) -> Check {
             (Tier::Thorough, 1) => 6,
             (Tier::Thorough, _) => 5,
         };
-        parts.push(Part::new("C13/causes", json!({"depth": d}), k, tier.pick(40, 600)));
+        parts.push(Part::new("C13/causes", json!({"depth": d}), k, tier.pick(90, 600)));
         if k == 0 {
             parts.push(Part::new("C13/causes", json!({"depth": d - 1, "flavour": 1}), 0, tier.pick(40, 600)));
             parts.push(Part::new("C13/causes", json!({"depth": d - 2, "flavour": 2}), 0, tier.pick(40, 600)));
